@@ -767,6 +767,7 @@ theorem complete_act_keep {f : FS} {a : Act} {q : Name}
   | removeIdx p => exact absurd rfl (ha.2 p)
   | addLoose x => simpa [FS.act] using h
   | delLoose x => simpa [FS.act] using h
+  | listPacks => simpa [FS.act] using h
 
 theorem loose_act_keep {f : FS} {a : Act} {x : Id} (ha : a ≠ .delLoose x) (h : x ∈ f.loose) : x ∈ (f.act a).loose := by
   cases a with
@@ -784,6 +785,7 @@ theorem loose_act_keep {f : FS} {a : Act} {x : Id} (ha : a ≠ .delLoose x) (h :
     refine ⟨h, ?_⟩
     intro hxy
     exact ha (by rw [hxy])
+  | listPacks => simpa [FS.act] using h
 
 /-- one action of a program that passes `checkProgram`: the ghost flags move on, and for every reader whose object is
 protected the action is an allowed environment step -/
@@ -865,6 +867,10 @@ theorem prog_step {pstar : Name} {prot : List Id} {hd hi : Bool} {f : FS} {a : A
     rcases hsafe with ⟨h1, h2⟩ | h
     · exact .inl (by simp [h1, h2])
     · exact .inr (by simpa using h)
+  | listPacks =>
+    simp only [checkProgram] at hp
+    exact ⟨hd, hi, ⟨hp, fun hh => by simpa [FS.act] using h.hdata hh, fun hh => by simpa [FS.act] using h.hidx hh⟩,
+      keep _ _ id (by simp) (by simp)⟩
   | removeData p =>
     simp only [checkProgram, Bool.and_eq_true, bne_iff_ne, ne_eq] at hp
     obtain ⟨⟨⟨hhd, hhi⟩, hne⟩, hp⟩ := hp
@@ -1294,5 +1300,76 @@ theorem iteration_complete (ids : Name → List Id) (alts : List Id) (x : Id) (p
     exact .inr trivial
   obtain ⟨ph, f', h⟩ := iexec_inv (alts := alts) hx hprot sched started started f0 prog _ hP hok h0
   exact iinv_done h hdone
+
+/-! ## `repack()` deletes only the packs of its snapshot: a pack another writer lands meanwhile survives -/
+
+/-- the packs the repacker may still remove -/
+def mayRemove : MPhase → List Name
+  | .start => []
+  | .copied snap => snap
+  | .installed snap => snap
+  | .removing t => t
+  | .done => []
+
+theorem complete_loose_irrel (f : FS) (l : List Id) (q : Name) : ({ f with loose := l } : FS).complete q = f.complete q := rfl
+
+theorem complete_remove_other {f : FS} {p q : Name} (hne : q ≠ p) (h : f.complete q = true) :
+    ((f.act (.removeData p)).act (.removeIdx p)).complete q = true := by
+  unfold FS.complete at *
+  simp only [Bool.and_eq_true, List.contains_iff_mem] at *
+  simp only [FS.act, List.mem_filter, bne_iff_ne, ne_eq]
+  exact ⟨⟨h.1, hne⟩, ⟨h.2, hne⟩⟩
+
+/-- one step of the real procedure (`relist = false`) from a state that has its snapshot: a complete pack outside the
+removable set stays complete and stays outside -/
+theorem mstep_keeps {newp : Name} {f : FS} {m : MPhase} {q : Name} (hm : m ≠ .start)
+    (hq : q ∉ mayRemove m) (hc : f.complete q = true) :
+    (mstep false newp f m).1.complete q = true ∧ q ∉ mayRemove (mstep false newp f m).2 ∧
+      (mstep false newp f m).2 ≠ .start := by
+  cases m with
+  | start => exact absurd rfl hm
+  | copied snap =>
+    simp only [mstep]
+    exact ⟨complete_act_keep (by simp) (complete_act_keep (by simp) hc), hq, by simp⟩
+  | installed snap =>
+    simp only [mstep, mayRemove, Bool.false_eq_true, if_false]
+    refine ⟨hc, ?_, by simp⟩
+    intro hmem
+    exact hq (List.mem_filter.mp hmem).1
+  | removing t =>
+    cases t with
+    | nil => simp only [mstep, mayRemove]; exact ⟨hc, by simp, by simp⟩
+    | cons p ps =>
+      simp only [mstep, mayRemove]
+      simp only [mayRemove, List.mem_cons, not_or] at hq
+      exact ⟨complete_remove_other hq.1 hc, hq.2, by simp⟩
+  | done => simp only [mstep, mayRemove]; exact ⟨hc, by simp, by simp⟩
+
+/-- The repacker's removal loop works off the snapshot it took before copying: whatever the schedule and whatever the
+other writer adds, a pack that is complete and outside the removable set at some moment after the snapshot (in
+particular every pack the other writer lands after the snapshot) is still complete when everything has finished. -/
+theorem late_pack_survives (newp : Name) :
+    ∀ (sched : List (Option Act)) (f : FS) (m : MPhase) (q : Name), (∀ a, some a ∈ sched → a.adds = true) →
+      m ≠ .start → q ∉ mayRemove m → f.complete q = true → (mexec false newp f m sched).1.complete q = true := by
+  intro sched
+  induction sched with
+  | nil => intro f m q _ _ _ hc; exact hc
+  | cons d ds ih =>
+    intro f m q henv hm hq hc
+    have henv' : ∀ a, some a ∈ ds → a.adds = true := fun a ha => henv a (List.mem_cons_of_mem _ ha)
+    cases d with
+    | none =>
+      simp only [mexec]
+      obtain ⟨h1, h2, h3⟩ := mstep_keeps (newp := newp) hm hq hc
+      exact ih _ _ q henv' h3 h2 h1
+    | some a =>
+      simp only [mexec]
+      have ha : a.adds = true := henv a (by simp)
+      have hkeep : (f.act a).complete q = true := by
+        apply complete_act_keep _ hc
+        constructor
+        · intro p hp; subst hp; simp [Act.adds] at ha
+        · intro p hp; subst hp; simp [Act.adds] at ha
+      exact ih _ _ q henv' hm hq hkeep
 
 end Dulwich.Reader
